@@ -219,8 +219,9 @@ def make_cases(chk) -> list[dict]:
         a, b = gen_value(rnd), gen_value(rnd)
         ka, kb = rnd.choice(["a", "k1", "x y", "A", "%s", "é"]), rnd.choice(["b", "k2", "B", "b-1"])
         pieces = [("lit", "select "), ("key", ka), ("lit", ", "), ("key", kb), ("lit", ", '"), ("pct",), ("lit", "', "), ("key", ka)]
-        add("dict", "pyformat", [pstep(pieces, "pyformat", [a, b], mode="map", keys=[ka, kb])],
-            expect=[[untyped(a, "pyformat"), untyped(b, "pyformat"), ("str", "%"), untyped(a, "pyformat")]])
+        dstyle = rnd.choice(["pyformat", "format"])       # `%(name)s` with a mapping is client-side binding under both styles
+        add("dict", dstyle, [pstep(pieces, dstyle, [a, b], mode="map", keys=[ka, kb])],
+            expect=[[untyped(a, dstyle), untyped(b, dstyle), ("str", "%"), untyped(a, dstyle)]])
     # K6: executemany
     for _ in range(n // 4):
         style = rnd.choice(styles)
@@ -291,6 +292,45 @@ def make_cases(chk) -> list[dict]:
                  plain(f"select s, s2 from t where id = {kid}"),
                  pstep(pieces, style, [v, v, v, v])]
         add("astext", style, steps, expect=[[("str", text + "|"), ("str", text[:10]), ("int", len(text)), ("bool", True)]])
+    # K6b: executemany × paramstyle × row container (tuple / list / dict rows) × every typed value class, incl. ints outside int64:
+    # "executemany over a sequence of parameter sets" has the effect of executing each row with its literals
+    for _ in range(max(60, n // 2)):
+        style = rnd.choice(["pyformat", "format", "qmark", "qmark"])
+        cls = rnd.choice(["bigint", "bigint", "int", "Decimal", "bool", "date", "datetime", "time", "str", "None"] + (["float"] if style == "qmark" else []))
+        m = rnd.randint(1, 4)
+        ids = [next_id() for _ in range(m)]
+        vals = []
+        for _ in ids:
+            if cls == "bigint":
+                i = rnd.choice([10**20 - 1, 10**20 + 1, 2**63, 2**64 + 1, -2**63 - 1, 10**38 - 1, -(10**37) - 3, rnd.randint(10**19, 10**37)])
+                vals.append(V(i, "int", "N:" + enc_str(repr(i)), "n"))
+            else:
+                vals.append(gen_value(rnd, cls))
+        col = vals[0].col if cls != "None" else "n"
+        sets = [[V(i, "int", "N:" + enc_str(repr(i)), "n"), v] for i, v in zip(ids, vals)]
+        as_ = rnd.choice(["tuple", "list", "dictrows"]) if style != "qmark" else rnd.choice(["tuple", "list"])
+        if as_ == "dictrows":
+            ins = [("lit", f"insert into t (id, {col}) values ("), ("key", "i"), ("lit", ", "), ("key", "v"), ("lit", ")")]
+            st = pstep(ins, style, None, mode="map", keys=["i", "v"], many=sets, fetch=False)
+        else:
+            ins = [("lit", f"insert into t (id, {col}) values ("), ("ph",), ("lit", ", "), ("ph",), ("lit", ")")]
+            st = pstep(ins, style, None, many=sets, fetch=False)
+            st["as"] = as_
+        add("manytyped", style, [st, plain(f"select id, {col} from t where id >= {ids[0]} and id <= {ids[-1]} order by id")],
+            expect=[[("int", i), typed(v)] for i, v in zip(ids, vals)])
+    # K6c: statements a nop pattern matches, WITH bound parameters (sequence and dict), on the nop-configured instance: the success row,
+    # exactly as with the literals written out
+    for _ in range(max(30, n // 6)):
+        style = rnd.choice(["pyformat", "format", "qmark"])
+        a, b = gen_value(rnd, rnd.choice(["str", "int", "None", "bool"])), gen_value(rnd, "str")
+        head = rnd.choice(["call p(", "CALL  my.proc(", "grant usage on x to role r /* ", "alter session set query_tag = "])
+        tail = {"call p(": ")", "CALL  my.proc(": ")", "grant usage on x to role r /* ": " */", "alter session set query_tag = ": ""}[head]
+        if style != "qmark" and rnd.random() < 0.4:
+            st = pstep([("lit", head), ("key", "a"), ("lit", ", "), ("key", "b"), ("lit", tail)], style, [a, b], mode="map", keys=["a", "b"])
+        else:
+            st = pstep([("lit", head), ("ph",), ("lit", ", "), ("ph",), ("lit", tail)], style, [a, b])
+        add("nopbound", style, [st], expect=[[("str", "Statement executed successfully.")]])
+        cases[-1]["nop"] = True
     # K7c: the SAME container object (dict / tuple / list / list of rows) bound in 2-3 successive executes: every execute must bind
     # the values the caller put in, and the container must still be what the caller passed
     for _ in range(max(40, n // 4)):
@@ -470,6 +510,8 @@ def _outcome(fn):
 def _container(st):
     """the parameter container the caller passes: dict / tuple / list (`as`), list of tuples or lists for executemany"""
     if st["many"] is not None:
+        if st["mode"] == "map":
+            return [{k: v.py for k, v in zip(st["keys"], s)} for s in st["many"]]
         return [(list if st.get("as") == "list" else tuple)(v.py for v in s) for s in st["many"]]
     if st["mode"] == "map":
         return {k: v.py for k, v in zip(st["keys"], st["vals"])} if len(st["keys"]) == len(st["vals"]) else {st["keys"][0]: st["vals"][0].py}
@@ -671,7 +713,7 @@ def _attach_model(cases, replies, index):
                 run_spec = run_impl = False   # the variable phase would rewrite the written literal (C15's finding, not C08's)
             if case["style"] == "qmark" and any(isinstance(x, str) and "\x00" in x for x in flat):
                 run_spec = False   # a NUL cannot be written in DuckDB SQL text at all: qmark is checked by read-back only
-            if case["style"] == "qmark" and case["kind"] == "typed" and any(v.cls == "float" for v in allvals):
+            if case["style"] == "qmark" and case["kind"] in ("typed", "manytyped") and any(v.cls == "float" for v in allvals):
                 run_spec = False   # DuckDB reads a written decimal literal inexactly into FLOAT (C08/float-literal-inexact); qmark binds the double itself
             if case["style"] == "qmark" and any(v.cls == "datetime_tz" for v in allvals):
                 run_spec = False   # qmark binds a TIMESTAMPTZ (compared as an instant); the client-side convention is the quoted text with its offset
